@@ -51,6 +51,9 @@ class HttpProtocolHandler(BaseTcpServerHandler[HttpClientConnection]):
         self.plugin: Optional[HttpProtocolHandlerPlugin] = None
         self.writes_teared: bool = False
         self.reads_teared: bool = False
+        # Plugin asked for writability when events were last collected,
+        # i.e. it still has something to send (e.g. to upstream)
+        self.plugin_writes_pending: bool = False
 
     ##
     # initialize, is_inactive, shutdown, get_events, handle_events
@@ -119,6 +122,7 @@ class HttpProtocolHandler(BaseTcpServerHandler[HttpClientConnection]):
         # HttpProtocolHandlerPlugin.get_descriptors
         if self.plugin:
             plugin_read_desc, plugin_write_desc = await self.plugin.get_descriptors()
+            self.plugin_writes_pending = len(plugin_write_desc) > 0
             for rfileno in plugin_read_desc:
                 if rfileno not in events:
                     events[rfileno] = selectors.EVENT_READ
@@ -158,6 +162,10 @@ class HttpProtocolHandler(BaseTcpServerHandler[HttpClientConnection]):
                     )
         # Wait until client buffer has flushed when reads has teared down but we can still write
         if self.reads_teared and not self.work.has_buffer():
+            # What the plugin still had to write, e.g. the end of an upload
+            # queued for the upstream, goes out first as well
+            if self.plugin_writes_pending:
+                return False
             return True
         return False
 
@@ -203,6 +211,18 @@ class HttpProtocolHandler(BaseTcpServerHandler[HttpClientConnection]):
                 # Call super() for client flush
                 teardown = await super().handle_writables(writables)
                 if teardown:
+                    if self.plugin_writes_pending and (
+                            self.work.has_buffer() or self.client_sent_eof
+                    ):
+                        # Client went away with buffer pending, or it ended
+                        # its stream and has now received everything.  What
+                        # it sent before, e.g. the end of an upload queued
+                        # for the upstream, still goes out.
+                        self.work.buffer = []
+                        self.work._num_buffer = 0
+                        self.must_flush_before_shutdown = False
+                        self.reads_teared = True
+                        return False
                     return True
             except ssl.SSLWantWriteError:   # Try again later
                 logger.warning(     # pragma: no cover
